@@ -212,8 +212,10 @@ FrameBytes(st, fr, chans, number) ==
 -----------------------------------------------------------------------------
 (* the stream: plan.pcm = sequence of channels (each a sequence of samples for the whole stream) *)
 StreamInfoBytes(st, minbs, maxbs, total, md5) ==
-    Pack(PutU(minbs, 16) \o PutU(maxbs, 16) \o PutU(0, 24) \o PutU(0, 24) \o PutU(st.rate, 20) \o PutU(st.channels - 1, 3)
-         \o PutU(st.bps - 1, 5) \o PutU(0, 12) \o PutU(total, 24)) \o md5
+    \* "si_rate" / "si_channels" / "si_bps": a STREAMINFO that disagrees with what the (self-describing) frame headers say
+    Pack(PutU(minbs, 16) \o PutU(maxbs, 16) \o PutU(0, 24) \o PutU(0, 24) \o PutU(Get(st, "si_rate", st.rate), 20)
+         \o PutU(Get(st, "si_channels", st.channels) - 1, 3)
+         \o PutU(Get(st, "si_bps", st.bps) - 1, 5) \o PutU(0, 12) \o PutU(total, 24)) \o md5
 
 SerializeStream(plan) ==
     LET st == plan
@@ -223,7 +225,7 @@ SerializeStream(plan) ==
         total == StartOf(nf + 1)
         ChansOf(i) == [c \in 1..st.channels |-> SubSeq(plan.pcm[c], StartOf(i) + 1, StartOf(i) + plan.frames[i].bs)]
         frs == [i \in 1..nf |-> FrameBytes(st, plan.frames[i], ChansOf(i),
-                                           IF Get(st, "variable", FALSE) THEN StartOf(i) ELSE Get(plan.frames[i], "number", i - 1))]
+                                           Get(plan.frames[i], "number", IF Get(st, "variable", FALSE) THEN StartOf(i) ELSE i - 1))]
         inter == [k \in 1..(total * st.channels) |-> plan.pcm[((k - 1) % st.channels) + 1][((k - 1) \div st.channels) + 1]]
         md5mode == Get(st, "md5", "good")
         good == M5!Digest(PcmBytes(inter, st.bps))
